@@ -32,7 +32,11 @@ RULE_ADDED = (
               ' '
               'Round 9: at every step of the sign / advance / update dialogues a well-formed an'
               'swer carrying each other opcode of the command; success is reported only if the '
-              "device's last answer reported it. ")
+              "device's last answer reported it. "
+              ' '
+              'Round 11: every command with a reconnection pending and a status word (12 values'
+              " in and out of the device's range) at each of the four exchanges of the repair's"
+              ' bring-up. ')
 RULE = RULE + " " + RULE_ADDED.strip()
 ASSUMPTIONS = [
     "simulated device + fake HID transport trusted; injected status words carry no data "
